@@ -321,12 +321,33 @@ func (o ObjSpec) json() any {
 	return nil
 }
 
+// defaultsPolicy: the default policy a configuration states, read by the harness itself (level names and "latest" / "v1.N"
+// spelled out here), NOT through admissionapi.ToPolicy — that function is part of what is being checked, and the expectations
+// of the model and of the oracles must not inherit its mistakes
 func defaultsPolicy(d admissionapi.PodSecurityDefaults) api.Policy {
-	p, err := admissionapi.ToPolicy(d)
-	if err != nil {
-		panic(err)
+	lv := func(level, version string) api.LevelVersion {
+		out := api.LevelVersion{Level: api.LevelPrivileged, Version: api.LatestVersion()}
+		switch level {
+		case "privileged", "baseline", "restricted":
+			out.Level = api.Level(level)
+		case "":
+		default:
+			panic("harness: generated default level " + level)
+		}
+		switch {
+		case version == "" || version == "latest":
+		case strings.HasPrefix(version, "v1."):
+			n, err := strconv.Atoi(version[3:])
+			if err != nil {
+				panic("harness: generated default version " + version)
+			}
+			out.Version = api.MajorMinorVersion(1, n)
+		default:
+			panic("harness: generated default version " + version)
+		}
+		return out
 	}
-	return p
+	return api.Policy{Enforce: lv(d.Enforce, d.EnforceVersion), Audit: lv(d.Audit, d.AuditVersion), Warn: lv(d.Warn, d.WarnVersion)}
 }
 
 // normalize: a request whose deadline has already passed (Remaining of a nanosecond) is, for the dry run, a request that is
